@@ -11,6 +11,8 @@ import PdshVerif.Opt.WcollFd
 import PdshVerif.Opt.WcollBytes
 import PdshVerif.Opt.WcollLookup
 import PdshVerif.Opt.WcollTopFd
+import PdshVerif.Opt.WcollLongName
+import PdshVerif.Opt.WcollStdinAgain
 import PdshVerif.Opt.Settings
 import PdshVerif.Dsh.Exit
 
@@ -32,7 +34,8 @@ and surrounding blanks ignored                           `WcollSpec`), `include_
 F looked up in the directory of the COMMAND-LINE file    `bare_include_in_top_directory`, `dot_names_are_bare`,
                                                          `nested_includes_in_command_line_directory` (every depth),
                                                          `stdin_includes_in_current_directory`, `dirname_is_dirOf`
-standard input for `-`                                   `assemble_refines` (`Source.stdin`; consumed once)
+standard input for `-`                                   `assemble_refines` (`Source.stdin`; consumed once), `stdin_read_once`,
+                                                         `later_stdin_sources_are_empty_files`, `stdin_stays_consumed`
 WCOLL when no other source is given                      `wcoll_only_without_other_source`, `wcoll_fallback`,
                                                          `no_source_no_list`, `empty_list_exit1`
 lines of ANY length read whole (no name split)           BYTE LEVEL: `glued_pieces_whole`, `whole_lines_bytes`,
@@ -43,7 +46,13 @@ a file reached a second time is skipped with a warning   `include_terminates`, `
 rather than looping                                      `spellings_resolve_alike`, `opened_in_cache`
 an unreadable source is an error, not an empty list      `unreadable_is_error`, `unreadable_include_is_error`,
                                                          `unresolved_include_is_error`, `error_is_final`
-(resources) no descriptor leaks                          `descriptors_balanced`, `open_files_le_depth`, `open_files_le_files`
+include names and the path buffer fq_path[PATHBUF]      `resolved_path_fits`, `long_explicit_name_is_cut` (F10-LONGNAME, open: an
+                                                         explicit name of ≥ PATHBUF bytes IS its first PATHBUF-1 bytes),
+                                                         `explicit_name_as_written_or_error` (with the patch),
+                                                         `bare_name_too_long_is_error`
+(resources) no descriptor leaks                          `descriptors_balanced`, `open_files_le_depth`, `open_files_le_files`,
+                                                         `top_streams_closed` (THE CODE since /repo 8d15944: `read_wcoll`
+                                                         closes what it opened; `top_streams_leak_witness` = before)
 end to end (C10 ∘ C02 ∘ C01)                             `target_list_end_to_end` (+ `_is_cliWords`, `_is_cliFinalW`)
 
 The reader comes in three forms (`LineMode`): `.fgets n` (as found: every fgets piece parsed on its own),
@@ -74,8 +83,11 @@ byte-level `.glued`) and the environment (`wenv`); the empty list is refused wit
 `empty_list_exit1`).
 DESCRIPTORS (`descriptors_balanced`, `open_files_le_depth`): every stream the reader opens is closed when
 `wcoll_ctx_read_file` returns, one stream per include level at most (ghost counter, erasable).
-Not proved here: a SECOND stdin source inside `target_list_end_to_end` (C02's file table is a static lookup; the
-domain asks for at most one `-`; `stdin_read_once` says what the second one reads);  dirname(3)/access(2)/fgets(3) themselves (modelled);  NUL bytes in files;  the
+A SECOND stdin source: `targetDomain` asks for at most one `-` (C02's file table is a static lookup);
+`later_stdin_sources_are_empty_files` reduces every command line with more (any positions, also `-^-`) to one
+with a single stdin source and empty files `^E` in place of the later ones — identical option-processing state —
+and `target_list_end_to_end` then speaks about the reduced line.
+Not proved here:  dirname(3)/access(2)/fgets(3) themselves (modelled);  NUL bytes in files;  the
 `:`-split of the command-line file's directory (`colon_dir_witness`, outside the domain).
 -/
 namespace PdshVerif.Props.C10
@@ -492,6 +504,36 @@ theorem stdin_read_once (mode : LineMode) (fs : FS) (st : St) (hf : st.fatal = f
   · rw [harg, he]
     simp [absorb, hempty, hf]
 
+/-- A SECOND STDIN SOURCE IS AN EMPTY FILE.  Once standard input has been read (`pre`: the arguments up to and
+including the first stdin source — `stdin_read_once` says its `stdin` is `[]` afterwards), every later stdin source
+(`^-`, `-^-`), wherever it stands among the remaining arguments `post`, may be replaced by `^E` / `-^E` for an empty
+readable file `E` without changing ANYTHING the option processing computes: list, exclusions, filters, warnings,
+errors.  This reduces a command line with any number of stdin sources to one with a single stdin source — the form
+`targetDomain` asks for — so `target_list_end_to_end` speaks about it through the reduced line. -/
+theorem later_stdin_sources_are_empty_files (mode : LineMode) (fs : FS) (e : Str) (he : e ≠ ['-'])
+    (hl : lookup fs e = some ⟨e, true, []⟩) (pre post : List Str) (st : St)
+    (h : (pre.foldl (argProcess mode fs) st).stdin = []) :
+    (pre ++ post.map (stdinAsFile e)).foldl (argProcess mode fs) st =
+      (pre ++ post).foldl (argProcess mode fs) st :=
+  Wcoll.later_stdin_sources_are_empty_files mode fs e he hl pre post st h
+
+/-- consumed stays consumed: no later argument brings standard input back -/
+theorem stdin_stays_consumed (mode : LineMode) (fs : FS) (st : St) (arg : Str) (h : st.stdin = []) :
+    (argProcess mode fs st arg).stdin = [] :=
+  argProcess_stdin_nil mode fs st arg h
+
+/-- `printf 's1\n' | pdsh -w ^-,w1,^-,-^-` = `... -w ^-,w1,^E,-^E` with `E` empty (decided; pinned on the real pdsh by
+checks/c10.py `src:ss:*`, `word-forms:3`, `stdin-twice:*`) -/
+example :
+    let fs : FS := [⟨"E".toList, true, []⟩]
+    let args := ["^-", "w1", "^-", "-^-"].map String.toList
+    (args.foldl (argProcess .whole fs) { stdin := "s1\n".toList }).exprs = ["s1".toList, "w1".toList] ∧
+    (["^-", "w1", "^E", "-^E"].map String.toList).foldl (argProcess .whole fs) { stdin := "s1\n".toList } =
+      args.foldl (argProcess .whole fs) { stdin := "s1\n".toList } := by
+  refine ⟨by decide, ?_⟩
+  exact later_stdin_sources_are_empty_files .whole _ "E".toList (by decide) rfl
+    ["^-".toList] (["w1", "^-", "-^-"].map String.toList) _ (by decide)
+
 /-- a lone `-` INSIDE a comma-separated list is not standard input: it is the exclusion of the empty word
 (`-w a,-` = target `a`, exclusion ``); only the whole option argument `-` and the word `^-` mean stdin -/
 theorem dash_inside_list_is_not_stdin :
@@ -541,6 +583,54 @@ example :
       (WcollSpec.fileHosts fs "t/A".toList).exprs = ["a1", "b1", "c-right", "d-right", "b2", "a2"].map String.toList := by
   decide
 
+/-! ## include names and the reader's path buffer (`fq_path [PATHBUF]`; F10-LONGNAME, open) -/
+
+/-- whatever an include line says, the path handed to `access` / `fopen` fits the buffer -/
+theorem resolved_path_fits (fs : FS) (dirs : List (List Char)) (f fq : List Char) (h : resolve fs dirs f = some fq) :
+    fq.length < PATHBUF :=
+  resolve_fits fs dirs f fq h
+
+/-- F10-LONGNAME, AS FOUND (`strncpy (buf, file, len - 1)`): for EVERY file system, search path, reader state and
+depth, including an explicit name of `PATHBUF` bytes or more IS including ANOTHER name — its first `PATHBUF - 1` bytes:
+the file system is never asked about the name that was written (which cannot exist: PATH_MAX), the hosts of the file
+at the cut name are targeted, and no error is raised.  Pinned on the real pdsh by checks/c10.py `longname:*`. -/
+theorem long_explicit_name_is_cut (mode : LineMode) (fs : FS) (dirs : List (List Char)) (k : Nat) (f : List Char)
+    (c : Ctx) (he : isExplicit f = true) (hl : PATHBUF ≤ f.length) :
+    f.take (PATHBUF - 1) ≠ f ∧
+    readFile mode fs dirs (k + 1) f c = readFile mode fs dirs (k + 1) (f.take (PATHBUF - 1)) c := by
+  have h1 := resolve_cuts_long fs dirs f he hl
+  have h2 : resolve fs dirs (f.take (PATHBUF - 1)) = some (f.take (PATHBUF - 1)) := by
+    have he' : isExplicit (f.take (PATHBUF - 1)) = true := by rw [isExplicit_take]; exact he
+    simp [resolve, he', List.take_take]
+  refine ⟨h1.2, ?_⟩
+  conv => lhs; unfold readFile
+  conv => rhs; unfold readFile
+  rw [h1.1, h2]
+
+/-- WITH findings/C10-LONGNAME.patch (`resolveR`): an explicit name is used exactly as written or it is an error
+(never another name); names that fit the buffer — every name a file can have — and all bare names resolve as before -/
+theorem explicit_name_as_written_or_error (fs : FS) (dirs : List (List Char)) (f : List Char)
+    (he : isExplicit f = true) :
+    (PATHBUF ≤ f.length → resolveR fs dirs f = none) ∧ (∀ fq, resolveR fs dirs f = some fq → fq = f) ∧
+    (f.length < PATHBUF → resolveR fs dirs f = resolve fs dirs f) :=
+  ⟨resolveR_refuses_long fs dirs f he, fun fq h => resolveR_as_written fs dirs f fq he h,
+   fun h => (resolve_eq_resolveR fs dirs f h).symm⟩
+
+/-- a bare name is looked up as `DIR/NAME`; when that does not fit the buffer it is an error in both forms
+(`snprintf` + length test → ENOSPC) -/
+theorem bare_name_too_long_is_error (fs : FS) (d name : List Char) (h : PATHBUF ≤ (d ++ '/' :: name).length)
+    (hb : isExplicit name = false) : resolve fs [d] name = none ∧ resolveR fs [d] name = none := by
+  have : pathLookup fs [d] name = none := by
+    unfold pathLookup
+    rw [if_pos h]
+  simp [resolve, resolveR, hb, this]
+
+example : isExplicit ("./".toList ++ List.replicate 5000 'a') = true ∧
+    PATHBUF ≤ ("./".toList ++ List.replicate 5000 'a').length := by
+  refine ⟨rfl, ?_⟩
+  rw [List.length_append, List.length_replicate]
+  decide
+
 /-! ## descriptors: what the reader holds open (ghost `Fd` threaded through the reader, Opt/WcollFd.lean) -/
 
 /-- the ghost does not influence the reader: erasing it gives `readFile` back -/
@@ -568,18 +658,18 @@ theorem open_files_le_files (mode : LineMode) (fs : FS) (dirs : List (List Char)
   have h := (readFileG_fd mode fs dirs (fuelFor fs) f (c, {})).2
   simpa [fuelFor] using h
 
-/-! ### the streams `read_wcoll` opens itself (F10-TOPFD) -/
+/-! ### the streams `read_wcoll` opens itself (closed again since 8d15944; F10-TOPFD was their leak) -/
 
 /-- the ghost count next to the option processing does not influence it -/
-theorem top_stream_ghost_erasable (closeTop : Bool) (mode : LineMode) (fs : FS) (stdin : List Char)
+theorem top_stream_ghost_erasable (leak : Bool) (mode : LineMode) (fs : FS) (stdin : List Char)
     (opts : List Opt) (env : Option (List Char)) :
-    (assembleOptsT closeTop mode fs stdin opts env).1 = assembleOpts mode fs stdin opts env :=
-  assembleOptsT_fst closeTop mode fs stdin opts env
+    (assembleOptsT leak mode fs stdin opts env).1 = assembleOpts mode fs stdin opts env :=
+  assembleOptsT_fst leak mode fs stdin opts env
 
-/-- with `fclose (fp)` added to `read_wcoll`, no stream opened for a `^file`, an exclusion file or WCOLL is
-left open, whatever the command line -/
+/-- THE CODE (`read_wcoll` since /repo 8d15944: `if (f == NULL) fclose (fp)`): no stream opened for a `^file`,
+an exclusion file or WCOLL is left open, whatever the command line -/
 theorem top_streams_closed (mode : LineMode) (fs : FS) (stdin : List Char) (opts : List Opt)
-    (env : Option (List Char)) : (assembleOptsT true mode fs stdin opts env).2 = 0 := by
+    (env : Option (List Char)) : (assembleOptsT false mode fs stdin opts env).2 = 0 := by
   simp only [assembleOptsT]
   have h := foldl_optProcessT_closed mode fs opts ({ stdin := stdin }, 0)
   split
@@ -588,12 +678,13 @@ theorem top_streams_closed (mode : LineMode) (fs : FS) (stdin : List Char) (opts
     · exact h
     · simp [h]
 
-/-- F10-TOPFD (witness): as found, `read_wcoll` never closes the stream it opened — `-w ^d/A,^d/B -x ^d/C`
-leaves three descriptors open (stdin `-` none); 60 file sources under `ulimit -n 40` end in "Too many open
-files" on the real pdsh (pinned by checks/c10.py) -/
+/-- F10-TOPFD (witness; repaired by /repo 8d15944): BEFORE that commit `read_wcoll` never closed the stream it
+opened — `-w ^d/A,^d/B -x ^d/C` left three descriptors open (stdin `-` none); 60 file sources under `ulimit -n 40`
+ended in "Too many open files" on the real pdsh.  checks/c10.py pins those command lines in every run: a tree
+that loses the `fclose` again is reported with them -/
 theorem top_streams_leak_witness :
-    (assembleOptsT false repairedReader demoFS [] [.w "^d/A,^-,^d/B".toList, .x "^d/C".toList] none).2 = 3 ∧
-    (assembleOptsT false repairedReader demoFS [] [] (some "d/A".toList)).2 = 1 := by decide
+    (assembleOptsT true repairedReader demoFS [] [.w "^d/A,^-,^d/B".toList, .x "^d/C".toList] none).2 = 3 ∧
+    (assembleOptsT true repairedReader demoFS [] [] (some "d/A".toList)).2 = 1 := by decide
 
 /-- three files that name one another in every way (cycle, diamond): three streams at most, none left open -/
 example : (readFileG shipped demoFS ["d".toList] (fuelFor demoFS) "A".toList ({}, {})).2 = ⟨0, 3⟩ := by decide
